@@ -18,7 +18,7 @@ def to_py(v):
     t = v["t"]
     if t == "int": return v["v"]
     if t == "flt": return v["v"] / 1e7
-    if t == "str": return v["v"]
+    if t == "str": return v["v"].replace("\\n", "\n\u2603\u00e9")     # backslash-n of the model = a real newline + non-ASCII characters (strings are opaque to the normalisation)
     if t == "none": return None
     if t == "nan": return float("nan")
     if t == "inf": return float("inf")
@@ -110,6 +110,11 @@ def run(ctx):
     ctx.add_tlc("ResultCodec", r)
     cases = [j for j in r.json if isinstance(j, dict) and "expected" in j]
     if len(cases) < 1000: raise RuntimeError("ResultCodec produced only %d cases" % len(cases))
+    if ctx.quick:     # quick: a second, smaller enumeration over text / non-finite / tuple values (thorough's MidVals has them all)
+        cfg = tracecheck._cfg("ResultCodec.cfg", {"ValSet <- SmallVals": "ValSet <- TextVals"}, ctx.scratch, "codec_text.cfg")
+        r2 = tlc.run("ResultCodec", cfg, ctx.scratch, workers=16, timeout=3600, heap="8g")
+        ctx.add_tlc("ResultCodec text values", r2)
+        cases += [j for j in r2.json if isinstance(j, dict) and "expected" in j]
     cases.sort(key=lambda c: json.dumps(c, sort_keys=True))
     ctx.sample(cases[len(cases) // 3], limit=1)
     ctx.exhaustive = True
